@@ -159,7 +159,7 @@ voc_read_header	(SF_PRIVATE *psf)
 	char	creative [20] ;
 	unsigned char block_type, rate_byte ;
 	short	version, checksum, encoding, dataoffset ;
-	int		offset ;
+	int		offset, missing_terminator = SF_FALSE ;
 
 	/* Set position to start of file to begin reading header. */
 	offset = psf_binheader_readf (psf, "pb", 0, creative, SIGNED_SIZEOF (creative)) ;
@@ -249,7 +249,12 @@ voc_read_header	(SF_PRIVATE *psf)
 		psf_log_printf (psf, " Sound Data : %d\n  sr   : %d => %dHz\n  comp : %d\n",
 								size, rate_byte, psf->sf.samplerate, compression) ;
 
-		if (offset + size - 1 > psf->filelength)
+		if (offset + size - 1 == psf->filelength + 1)
+		{	/* As below : a file whose header was updated (SFC_UPDATE_HEADER_NOW) but which was never closed. */
+			psf_log_printf (psf, "Missing zero byte at end of file.\n") ;
+			missing_terminator = SF_TRUE ;
+			}
+		else if (offset + size - 1 > psf->filelength)
 		{	psf_log_printf (psf, "Seems to be a truncated file.\n") ;
 			psf_log_printf (psf, "offset: %d    size: %d    sum: %d    filelength: %D\n", offset, size, offset + size, psf->filelength) ;
 			return SFE_VOC_BAD_SECTIONS ;
@@ -261,7 +266,7 @@ voc_read_header	(SF_PRIVATE *psf)
 			} ;
 
 		psf->dataoffset = offset ;
-		psf->dataend	= psf->filelength - 1 ;
+		psf->dataend	= missing_terminator ? 0 : psf->filelength - 1 ;
 
 		psf->sf.channels = 1 ;
 		psf->bytewidth = 1 ;
@@ -312,7 +317,11 @@ voc_read_header	(SF_PRIVATE *psf)
 								"  comp   : %d\n", size, rate_byte, compression) ;
 
 
-		if (offset + size - 1 > psf->filelength)
+		if (offset + size - 1 == psf->filelength + 1)
+		{	psf_log_printf (psf, "Missing zero byte at end of file.\n") ;
+			missing_terminator = SF_TRUE ;
+			}
+		else if (offset + size - 1 > psf->filelength)
 		{	psf_log_printf (psf, "Seems to be a truncated file.\n") ;
 			psf_log_printf (psf, "offset: %d    size: %d    sum: %d    filelength: %D\n", offset, size, offset + size, psf->filelength) ;
 			return SFE_VOC_BAD_SECTIONS ;
@@ -324,7 +333,7 @@ voc_read_header	(SF_PRIVATE *psf)
 			} ;
 
 		psf->dataoffset = offset ;
-		psf->dataend = psf->filelength - 1 ;
+		psf->dataend = missing_terminator ? 0 : psf->filelength - 1 ;
 
 		psf->bytewidth = 1 ;
 
@@ -457,7 +466,7 @@ voc_write_header (SF_PRIVATE *psf, int calc_length)
 		rate_const = 256 - 1000000 / psf->sf.samplerate ;
 
 		/* First type marker, length, rate_const and compression */
-		psf_binheader_writef (psf, "e1311", BHW1 (VOC_SOUND_DATA), BHW3 ((int) (psf->datalength + 1)), BHW1 (rate_const), BHW1 (0)) ;
+		psf_binheader_writef (psf, "e1311", BHW1 (VOC_SOUND_DATA), BHW3 ((int) (psf->datalength + 2)), BHW1 (rate_const), BHW1 (0)) ;
 		}
 	else if (subformat == SF_FORMAT_PCM_U8 && psf->sf.channels == 2)
 	{	/* sample_rate = 128000000 / (65536 - rate_short) ; */
@@ -474,7 +483,7 @@ voc_write_header (SF_PRIVATE *psf, int calc_length)
 		/*	Now write the VOC_SOUND_DATA section
 		** 		marker, length, rate_const and compression
 		*/
-		psf_binheader_writef (psf, "e1311", BHW1 (VOC_SOUND_DATA), BHW3 ((int) (psf->datalength + 1)), BHW1 (rate_const), BHW1 (0)) ;
+		psf_binheader_writef (psf, "e1311", BHW1 (VOC_SOUND_DATA), BHW3 ((int) (psf->datalength + 2)), BHW1 (rate_const), BHW1 (0)) ;
 		}
 	else
 	{	int length ;
@@ -537,6 +546,9 @@ voc_close	(SF_PRIVATE *psf)
 
 
 		psf_fseek (psf, 0, SEEK_END) ;
+
+		/* The terminator written next is not sound data. */
+		psf->dataend = psf_ftell (psf) ;
 
 		/* Write terminator */
 		psf_fwrite (&byte, 1, 1, psf) ;
